@@ -36,3 +36,14 @@ Proof. reflexivity. Qed.
 
 Lemma main_noack_failure : DoneGen.done_noack_main_py = RNone /\ DoneGen.failure_main_py = RErr.
 Proof. split; reflexivity. Qed.
+
+(* a batch acknowledged without a base offset (DUPLICATE_SEQUENCE_NUMBER for a batch whose metadata the broker no
+   longer retains) names no offset for any of its records - never a valid-looking offset of another record *)
+From Verif Require Import C02_proof.
+Lemma unknown_base_names_no_offset base bts ls fs k r :
+  base < 0 -> In (k, r) (DoneGen.done_py base bts ls fs) -> exists ts ty, r = RMeta (-1) ts ty ls.
+Proof.
+  intros Hb H. rewrite done_py_eq in H. apply done_coordinates in H. destruct H as (f & _ & _ & ->).
+  destruct (base <? 0) eqn:E; [eauto|]. apply Z.ltb_ge in E. exfalso. apply (Z.lt_irrefl 0).
+  eapply Z.le_lt_trans; eassumption.
+Qed.
